@@ -17,7 +17,7 @@ func TestC12(t *testing.T) {
 	const id = "C12"
 	checkWitnesses(t, id)
 	checkRegressions(t, id)
-	ev.Rule(id, "rapid-generated multi-package programs (all annotation kinds mixed, every site tagged; 30% of the chains without a file move carry a file-level @ignore header whose attachment to the package clause is reshaped) and chains of 1-3 transformations from: permute top-level declarations of a file, move a declaration to another (possibly new, possibly first-sorting) file of the package, rename a file so that it sorts first / last, insert blank lines / ordinary comments, go/format, consistently rename parameters / receivers / locals (closure parameters deliberately shadow the receiver's name in the base). oracle = metamorphic: {(site tag, code)} equal before and after, for TONL01/PKGO01 {(using package, type)}; baseline from the real tool. non-trivial = chain that reorders declarations of a file holding a function and a package-level declaration with a site, moves a declaration to another file, or renames a shadowing variable - and the base has >=1 diagnostic; distinct by hash of (base, transformed)")
+	ev.Rule(id, "rapid-generated multi-package programs (all annotation kinds mixed, every site tagged; 40% carry 1-4 inline @ignore comments trailing the first / last line of declarations and statements; 30% of the chains without a file move carry a file-level @ignore header whose attachment to the package clause is reshaped) and chains of 1-3 transformations from: permute top-level declarations of a file, move a declaration to another (possibly new, possibly first-sorting) file of the package, rename a file so that it sorts first / last, insert blank lines / ordinary comments, go/format, consistently rename parameters / receivers / locals (closure parameters deliberately shadow the receiver's name in the base). oracle = metamorphic: {(site tag, code)} equal before and after, for TONL01/PKGO01 {(using package, type)}; baseline from the real tool. non-trivial = chain that reorders declarations of a file holding a function and a package-level declaration with a site, moves a declaration to another file, or renames a shadowing variable - and the base has >=1 diagnostic; distinct by hash of (base, transformed)")
 	cfg := engine.DefaultConfig()
 	rapid.Check(t, func(rt *rapid.T) {
 		opts := proggen.GenOpts{Focus: "all", MinPkgs: 1, MaxPkgs: 3, TestFiles: true, XTest: true, Aliases: true, Rich: true}
@@ -50,6 +50,35 @@ func TestC12(t *testing.T) {
 			sh := headShapes(headComment)
 			headFile.Head = sh[rapid.IntRange(0, len(sh)-1).Draw(rt, "headShapeA")]
 			p.Render()
+		}
+		// inline @ignore comments trailing the first / last line of declarations and
+		// statements: they travel with their node, so the verdicts must still not move
+		if rapid.IntRange(0, 9).Draw(rt, "inlineIgnores") < 4 {
+			var declNodes, all []proggen.NodeRef
+			for _, n := range p.Nodes() {
+				if _, one := n.Stmt.(*proggen.OneLiner); one {
+					continue // gofmt spreads it over several lines: a trailing comment would change its line
+				}
+				all = append(all, n)
+				if n.Stmt == nil {
+					declNodes = append(declNodes, n)
+				}
+			}
+			for k, nk := 0, rapid.IntRange(1, 4).Draw(rt, "nInline"); k < nk && len(all) > 0; k++ {
+				pool := all
+				if len(declNodes) > 0 && rapid.IntRange(0, 9).Draw(rt, "onDecl") < 7 {
+					pool = declNodes
+				}
+				n := pool[rapid.IntRange(0, len(pool)-1).Draw(rt, "inlineNode")]
+				comment := "// @ignore " + rapid.SampledFrom([]string{"ALL", "ALL", "IMM", "CTOR", "TONL", "PKGO", "IMPL", "CTOR01, CTOR03, TONL01", "PKGO01, IMPL03"}).Draw(rt, "inlineCodes")
+				if n.Node.End > n.Node.Start && rapid.Bool().Draw(rt, "inlineLast") {
+					n.Node.TrailingLast = comment
+				} else {
+					n.Node.Trailing = comment
+				}
+			}
+			p.Render()
+			ev.Class(id, "program with inline @ignore comments on declarations / statements")
 		}
 		base := loadOrBug(rt, id, p, cfg)
 		srcA := p.Sources()
